@@ -466,7 +466,8 @@ func unpack(t *rt.Thread, c *rt.GoCont) (rt.Cont, error) {
 	if err != nil {
 		return nil, err
 	}
-	if i < math.MaxInt64-maxUnpackSize && i+maxUnpackSize <= j {
+	if i <= j && uint64(j)-uint64(i) >= maxUnpackSize {
+		// j - i + 1 values, counted without overflow
 		return nil, errors.New("too many values to unpack")
 	}
 	next := c.Next()
